@@ -60,6 +60,8 @@ def required(tier):
           'table:low-ceiling-15k', 'table:thirsty-climb', 'starting-mass:given', 'identical-to-fresh-builder',
           'history:several-models-on-one-builder', 'table:transient-variant',
           'history:config-reloaded:weather-dir-other', 'history:config-reloaded:weather-dir-empty',
+          'history:flight-interrupted-by-KeyboardInterrupt',
+          'kind:above-cruise:airport-without-elevation',
           'same-exception-as-fresh-builder']
     return {'classes': cl, 'evaluations': 300}
 
@@ -84,7 +86,10 @@ def run_shard(spec, rec):
     pms = {'sample': PerformanceModel.from_data(base),
            'low-ceiling-15k': PerformanceModel.from_data(fg.special_model(base, ceiling_ft=15000)),
            'low-ceiling-19k': PerformanceModel.from_data(fg.special_model(base, ceiling_ft=19000)),
-           'thirsty-climb': PerformanceModel.from_data(fg.special_model(base, climb_ff_scale=4.0))}
+           'thirsty-climb': PerformanceModel.from_data(fg.special_model(base, climb_ff_scale=4.0)),
+           'ceiling-2500ft': PerformanceModel.from_data(fg.special_model(base, ceiling_ft=2500))}
+    # airports of the library's supplemental file that have no elevation in the data base
+    no_elev = sorted(c_ for c_, a_ in w.items() if a_['tag'] == 'patch' and a_['elev_m'] == 0.0)[:6]
     pm = pms['sample']
     wx_day = pd.Timestamp('2024-09-01T12:00:00Z')
     # a second weather directory: same day, winds of half the strength and reversed sign
@@ -139,6 +144,13 @@ def run_shard(spec, rec):
             m = mission(o, d, 0.8, wx_day if use_weather else None)
         elif kind == 'above-cruise':
             o, d = rng.choice([('XE4', 'XE3'), ('XT3', 'XE4'), ('XE4', 'XE2')])
+            if pm is pms['ceiling-2500ft'] and no_elev:
+                # with a 2 500 ft ceiling every airport is "above cruise level", also one
+                # whose elevation is missing from the data base
+                o, d = rng.choice([('BOS', rng.choice(no_elev)), (rng.choice(no_elev), 'JFK'),
+                                   ('JFK', 'BOS')])
+                rec.cls('kind:above-cruise:airport-without-elevation'
+                        if (o in no_elev or d in no_elev) else 'kind:above-cruise:low-ceiling')
             m = mission(o, d, 0.8)
         elif kind == 'out-of-envelope':
             m = mission(*rng.choice([('BOS', 'XN2'), ('LAX', 'XL3'), ('XA7', 'XP1')]), 1.0)
@@ -187,7 +199,8 @@ def run_shard(spec, rec):
             case = {'spec': {'seed': spec['seed'], 'n': spec['n']}, 'k': k}
             use_weather = rng.random() < 0.3
             pm_name = 'sample' if use_weather else rng.choice(
-                ['sample', 'sample', 'low-ceiling-15k', 'low-ceiling-19k', 'thirsty-climb'])
+                ['sample', 'sample', 'low-ceiling-15k', 'low-ceiling-19k', 'thirsty-climb',
+                 'ceiling-2500ft'])
             pm = pms[pm_name]
             iterate = rng.random() < 0.5
             reltol = rng.choice([1e-2, 1e-3, 1e-5, 1e-9, 1e-13])
@@ -258,6 +271,35 @@ def run_shard(spec, rec):
                         log.append(('config-reloaded', which))
                         rec.cls(f'history:config-reloaded:weather-dir-{which}')
                     kind, m, sm = gen_call(rng, use_weather)
+                    if rng.random() < 0.12:
+                        # the user interrupts a flight (Ctrl-C) somewhere in the middle: the
+                        # builder must stay usable and fly like a brand-new one afterwards
+                        calls = {'n': 0, 'at': rng.randint(1, 40)}
+                        real_step = GroundTrack.step
+
+                        def interrupting_step(self_, *a, **k_):
+                            calls['n'] += 1
+                            if calls['n'] == calls['at']:
+                                raise KeyboardInterrupt()
+                            return real_step(self_, *a, **k_)
+                        GroundTrack.step = interrupting_step
+                        try:
+                            veteran.fly(pm, m)
+                            interrupted = False
+                        except KeyboardInterrupt:
+                            interrupted = True
+                        except Exception:  # noqa: BLE001
+                            interrupted = False
+                        finally:
+                            GroundTrack.step = real_step
+                        if interrupted:
+                            log.append(('interrupted-by-KeyboardInterrupt', m.origin,
+                                        m.destination))
+                            rec.cls('history:flight-interrupted-by-KeyboardInterrupt')
+                            if 'ctx' in vars(veteran):
+                                raise Mismatch('the simulation context survives a call to fly()',
+                                               {'after': 'KeyboardInterrupt', 'history': log[-6:],
+                                                'options': opts})
                     got = outcome(veteran, m, sm, pm)
                     first_res = residuals[0] if residuals else None
                     n_passes = len(residuals)
